@@ -4,6 +4,7 @@ import TapkeeVerif.Model.DMat
 import TapkeeVerif.Model.Dijkstra
 import TapkeeVerif.Model.DijkstraSpec
 import TapkeeVerif.Model.IsomapPre
+import TapkeeVerif.Model.Cert
 /-! Line-protocol driver for property C04 (DESIGN §11).
 
   in : `geo heap=pq|fib N=4 lists=1,2;2,3;3,0;0,1 w=0,1,4,2;… lm=2,0 [ch=seed]`
@@ -13,8 +14,12 @@ import TapkeeVerif.Model.IsomapPre
   in : `oracle N=… lists=… w=… lm=… F=<rows> L=<rows>`      (observations of the implementation)
   out: `sp=ok|reject diag=ok|bad direct=ok|bad|na lm=ok|bad|na`
 
-  in : `iso N=8 nb=<lists> w=<distance matrix> pre=<matrix seen by the eigensolver>`
-  out: `pre=ok|differ@i,j:model:impl|unreachable cmds=ok|differ@i,j:is:want sym=0|1`
+  in : `iso N=8 nb=<lists> w=<distance matrix> pre=<matrix seen by the eigensolver> [d=2 ev=<eigenvalues> Y=<embedding>]`
+  out: `pre=ok|differ@i,j:model:impl|unreachable cmds=ok|differ@i,j:is:want sym=0|1 y=ok|FAIL-…|na`
+       `y`: certificate that the returned embedding is the classical-MDS solution of the reference geodesics,
+       decided in exact rational arithmetic on the dyadic values the implementation returned, tolerance 2⁻³⁰·scale:
+       `YᵀY = diag(max λ 0)`, `B Y = Y diag λ` for `B = −½ J S J` computed from the Floyd–Warshall geodesics, and
+       (Sylvester inertia of `B − σ·1`) no eigenvalue of `B` above the returned ones.
 -/
 open TapkeeVerif TapkeeVerif.Util TapkeeVerif.Dijkstra
 
@@ -117,6 +122,40 @@ def firstDiff {n : Nat} (A B : Mat n n Rat) : Option (Nat × Nat × Rat × Rat) 
   (List.finRange n).findSome? fun i => (List.finRange n).findSome? fun j =>
     if A i j = B i j then none else some (i.1, j.1, A i j, B i j)
 
+def absR (x : Rat) : Rat := if x < 0 then -x else x
+
+/-- `2⁻³⁰` -/
+def εrel : Rat := 1 / 1073741824
+
+/-- certificate for the final embedding (see the header); `B` is the reference classical-MDS matrix -/
+def embeddingCert (fs : List (String × String)) (N : Nat) (B : DMat N N Rat) : String :=
+  match field? fs "d" >>= String.toNat?, parseRatMat ((field? fs "ev").getD ""), parseRatMat ((field? fs "Y").getD "") with
+  | some d, some ev, some Yr =>
+    if N > 16 then "na:N>16" else
+    if !(ev.size == 1 && (ev[0]?.map (·.size)).getD 0 == d && Yr.size == N && Yr.all (·.size == d)) then "FAIL-shape" else
+    let Y := DMat.ofFn (n := N) (m := d) fun i j => mkW Yr i.1 j.1
+    let lam := DVec.ofFn (n := d) fun j => mkW ev 0 j.1
+    let lamPlus : Vec d Rat := fun j => if lam.get j < 0 then 0 else lam.get j
+    let bmax := Cert.maxAbs B.get
+    let lmax := Cert.maxFin d fun j => absR (lam.get j)
+    let ymax := Cert.maxAbs Y.get
+    let scale := Cert.maxK (Cert.maxK bmax lmax) 1
+    let tol := εrel * scale
+    let g := Cert.maxAbs (Cert.gramDefect Y.get lamPlus)
+    let r := Cert.residMax B.get Y.get lam.get
+    if g > tol then "FAIL-gram"
+    else if r > tol * Cert.maxK ymax 1 then "FAIL-span"
+    else
+      -- no eigenvalue of B above the returned ones: try just below and just above the smallest returned one
+      let lo := Cert.minVec lam.get
+      let ext := Cert.extremalAt B.get lam.get (lo - tol) || Cert.extremalAt B.get lam.get (lo + tol) ||
+                 Cert.extremalAt B.get lam.get (lo - 3 * tol) || Cert.extremalAt B.get lam.get (lo + 3 * tol)
+      if ext then "ok" else
+        match Cert.inertiaPos B.get (lo - tol), Cert.inertiaPos B.get (lo + tol) with
+        | none, none => "inconclusive"
+        | _, _ => "FAIL-extremal"
+  | _, _, _ => "na"
+
 def answerIso (fs : List (String × String)) : String :=
   match field? fs "N" >>= String.toNat?, parseLists ((field? fs "nb").getD ""),
         parseRatMat ((field? fs "w").getD ""), parseRatMat ((field? fs "pre").getD "") with
@@ -149,7 +188,8 @@ def answerIso (fs : List (String × String)) : String :=
           | none => "ok"
           | some (i, j, m, x) => s!"differ@{i},{j}:{showDy m}:{showDy x}"
         let sym := (List.range N).all fun i => (List.range N).all fun j => G.get i j == G.get j i
-        s!"pre={a} cmds={b} sym={if sym then 1 else 0}"
+        let y := embeddingCert fs N want
+        s!"pre={a} cmds={b} sym={if sym then 1 else 0} y={y}"
   | _, _, _, _ => "bad-case"
 
 def answer (line : String) : String :=
